@@ -606,6 +606,12 @@ def predicate(d, extra, prior):
     why = check_component(d, extra, comps[-1])
     if why:
         return ("set-config-component", why)
+    # encoding is a function of the dictionary alone: after set_config (which appended the caller's extra blocks to ITS
+    # list) the same dictionary still encodes to the same blocks
+    tl2 = impl_tlv(d)
+    if tl2 != tl:
+        return ("tlv-blocks", "conf_dict_to_tlv of the same dictionary gives %r after a set_config with %d extra blocks, %r before"
+                % (tl2[1] if tl2[0] == "ok" else tl2, len(list(extra)), tl[1]))
     # the caller owns the component it got: editing its tag list (a hardware filter added, the reboot tag cleared) must
     # not show up in the configuration component of any LATER set_config, on this or another file object - the next
     # evaluation of this predicate would see it
